@@ -273,6 +273,49 @@ fn main() {
             });
             println!("{:?}", out.value);
         }
+        "findmates" => {
+            // one-off generator: mate-in-1 positions whose mating move is of a special kind
+            // (double check, discovered check, promotion, en passant, pawn push, castling)
+            use refchess::*;
+            let secs: u64 = args.get(1).and_then(|s| s.parse().ok()).unwrap_or(20);
+            std::thread::scope(|sc| {
+                for t in 0..jobs {
+                    sc.spawn(move || {
+                        let mut rng = rng::Rng64::new(seed * 7919 + t as u64);
+                        let start = std::time::Instant::now();
+                        while start.elapsed().as_secs() < secs {
+                            let p = corpus::random_rich(&mut rng);
+                            for m in p.legal_moves() {
+                                let c = p.make(m);
+                                if !(c.in_check() && c.legal_moves().is_empty()) {
+                                    continue;
+                                }
+                                let mover = p.board[m.from as usize] & 7;
+                                let ksq = c.king_sq(c.side).unwrap();
+                                let kind = if m.promo != 0 {
+                                    "promotion"
+                                } else if mover == PAWN && (m.from % 8) != (m.to % 8) && p.board[m.to as usize] == EMPTY {
+                                    "en-passant"
+                                } else if mover == KING && ((m.from as i8 - m.to as i8).abs() == 2) {
+                                    "castle"
+                                } else if !c.attacked_by_piece_at(ksq, m.to) {
+                                    "discovered"
+                                } else if c.count_checkers() >= 2 {
+                                    "double"
+                                } else if mover == PAWN {
+                                    "pawn"
+                                } else if p.board[m.to as usize] != EMPTY {
+                                    "capture"
+                                } else {
+                                    continue;
+                                };
+                                println!("{} | {} | {}", kind, p.fen(), m.uci());
+                            }
+                        }
+                    });
+                }
+            });
+        }
         "findc17" => {
             // one-off generator: positions with a short forced mate, >= 2 mate-keeping first moves,
             // one of which is a pawn move or a capture (used to extend the curated corpus)
@@ -364,6 +407,19 @@ fn selfcheck_oracle() -> i32 {
             _ => {
                 println!("[selfcheck] corpus FEN invalid or not canonical: '{}'", fen);
                 bad += 1;
+            }
+        }
+    }
+    for line in corpus::BOOK_CASTLE_LINES {
+        let mut p = refchess::Pos::start();
+        for t in line.split_ascii_whitespace() {
+            match refchess::Mv::parse(t) {
+                Some(m) if p.is_legal(m) => p = p.make(m),
+                _ => {
+                    println!("[selfcheck] opening line '{}' has an illegal move at '{}'", line, t);
+                    bad += 1;
+                    break;
+                }
             }
         }
     }
